@@ -1,5 +1,5 @@
 """Engine `isa` - C01: single-cycle RV32IM execution vs. the sequential reference (lockstep)."""
-from ..common import Result, rng_for, h64, make_riscv, install_program, build_instr, set_regs, preload_mem, real_regs, instr_text, M32
+from ..common import guarded, Result, rng_for, h64, make_riscv, install_program, build_instr, set_regs, preload_mem, real_regs, instr_text, M32
 from ..refmodels.rv32 import SeqRef, Fault, srcs, footprint, execute
 from ..gen import progs as G
 
@@ -30,7 +30,7 @@ def run_shard(spec, res):
     rng = rng_for("C01", spec["tier"], spec["seed"], spec["kind"], spec["shard"])
     if spec["kind"] == "directed":
         for case in directed_cases():
-            run_case("C01", case, res)
+            guarded(run_case, "C01", case, res)
             res.evaluations += 1
         return
     for it in range(spec["n"]):
@@ -39,7 +39,7 @@ def run_shard(spec, res):
             case = G.instr_case(rng, m)
         else:
             case = prog_case(rng)
-        run_case("C01", case, res)
+        guarded(run_case, "C01", case, res)
         res.evaluations += 1
         if it < 2:
             res.sample(case)
